@@ -143,6 +143,10 @@ def draw_case(rng, tier, info):
     for i in range(n):
         if resolve_at == i:
             case["events"].append("resolve")
+        if rng.random() < 0.25:
+            # a codec object for the class is created here (and used before every later call): creating
+            # and using codecs must never change what the class itself does
+            case["events"].append({"codec": rng.choice([None, 0, 1])})
         s = rng.randrange(len(slots))
         d = rng.choice([None, None, 0, 1])
         coder = "custom" if (slots[s].get("custom") and rng.random() < 0.25) else None
@@ -286,6 +290,38 @@ class World:
         except Exception as e:  # noqa
             return ["error", f"{type(e).__name__}: {e}"[:160]]
 
+    def make_codec(self, dialect):
+        from mashumaro.codecs.basic import BasicDecoder, BasicEncoder
+
+        if not hasattr(self, "codecs"):
+            self.codecs = []
+        if self.create_error:
+            return
+        try:
+            self.codecs.append((BasicEncoder(self.cls, default_dialect=dialect), BasicDecoder(self.cls, default_dialect=dialect)))
+        except Exception as e:  # noqa
+            self.codecs.append(type(e).__name__)
+
+    def use_codecs(self, seed):
+        from mashumaro.exceptions import UnresolvedTypeReferenceError
+
+        out = []
+        for c in getattr(self, "codecs", []):
+            if isinstance(c, str):
+                out.append(["codec-create-error", c])
+                continue
+            try:
+                doc = c[0].encode(self.instance(seed))
+                out.append(["ok", canon(doc), canon(c[1].decode(doc))])
+            except UnresolvedTypeReferenceError:
+                out.append(["unresolved"])
+            except RecursionError:
+                out.append(["diverged"])
+            except Exception as e:  # noqa
+                out.append(["error", f"{type(e).__name__}: {e}"[:160]])
+        del self.hooklog[:]
+        return out
+
     def _dkey(self, dialect):
         return None if dialect is None else dialect.__name__
 
@@ -302,6 +338,8 @@ def model_lines(case, info):
         for e in case["events"]:
             if e == "resolve":
                 evs.append("resolve")
+            elif "codec" in e:
+                continue
             elif e["slot"] == si:
                 evs.append({"dialect": e["dialect"], "coder": ("custom" if e["coder"] else None)})
         lines.append({
@@ -353,6 +391,22 @@ def run_case(ctx, case, cid, info, model=None):
                 outs.append(None)
                 wants.append(None)
                 continue
+            if "codec" in e:
+                cd = dialects[e["codec"]] if e["codec"] is not None else None
+                unresolved_now = real.postponed and real.later is None
+                real.make_codec(cd)
+                twin.make_codec(cd)
+                if unresolved_now and getattr(real, "codecs", None) and real.codecs[-1] == "UnresolvedTypeReferenceError":
+                    # the documented error while the reference cannot be resolved (postponed evaluation
+                    # switched off for this builder): no codec exists, nothing to compare later
+                    real.codecs.pop()
+                    if getattr(twin, "codecs", None):
+                        twin.codecs.pop()
+                    ctx.bump("codec creation refused with the documented error")
+                outs.append(None)
+                wants.append(None)
+                ctx.bump("codec objects created on the class under test")
+                continue
             d = dialects[e["dialect"]] if e["dialect"] is not None else None
             if slots[e["slot"]]["unpack"] and (e["slot"], None if d is None else d.__name__) not in docs:
                 # the format cannot carry this value under this dialect (e.g. TOML with omit_none=False)
@@ -365,6 +419,10 @@ def run_case(ctx, case, cid, info, model=None):
                 import orjson
 
                 extra = {"orjson_options": orjson.OPT_INDENT_2 | orjson.OPT_SORT_KEYS}
+            if not real.create_error and not (real.postponed and real.later is None):
+                cg, cw = real.use_codecs(case["seed"]), twin.use_codecs(case["seed"])
+                if cg != cw:
+                    ctx.violation({"case": case, "event": len(outs)}, {"got": cg}, {"eager_twin": cw}, "codec objects of the class give other results than those of the eagerly compiled twin", lambda f: False)
             got = real.call(e["slot"], d, e["coder"], case["seed"], extra)
             if real.create_error:
                 want = ["define-raises", real.create_error]
@@ -389,7 +447,7 @@ def run_case(ctx, case, cid, info, model=None):
         k = 0
         per_slot_idx = {si: 0 for si in range(len(slots))}
         for ei, e in enumerate(case["events"]):
-            if e == "resolve":
+            if e == "resolve" or "codec" in e:
                 continue
             got, want = outs[ei], wants[ei]
             c = {"case": case, "event": ei}
@@ -424,7 +482,7 @@ def run_case(ctx, case, cid, info, model=None):
                     ctx.bump("model_impl_differs_from_spec")
         ctx.count({"case": {k: v for k, v in case.items() if k != "dialects"}}, stubbed, kind=f"mode:{case['mode']}")
         ctx.bump(f"mixin:{case['mixin']}")
-        ctx.bump("calls", sum(1 for e in case["events"] if e != "resolve"))
+        ctx.bump("calls", sum(1 for e in case["events"] if e != "resolve" and "codec" not in e))
         for o in outs:
             if o is not None:
                 ctx.bump(f"outcome:{o[0]}")
@@ -498,11 +556,15 @@ def run(ctx):
             break
         a, k = index[cid]
         run_case(ctx, c, cid, info, ms[a : a + k] if ms else None)
+    run_generic_orders(ctx, 12 if quick else 24)
     thread_stress(ctx, 30 if quick else 400, 8, info)
     ctx.assumptions.append("threads: attribute reads/writes and exec are atomic under the GIL; races inside CPython, functools.lru_cache or the builder's shared __dict__ are outside the model (PARTIAL for schedules)")
 
 
 def replay(ctx, body):
+    if isinstance(body.get("case"), dict) and "generic_order" in body["case"]:
+        run_generic_orders(ctx, 24)
+        return ctx.finish()
     ctx.lean_check("Mashu.Props.C14", THEOREMS, extra_targets=["Mashu.Dispatch"])
     info = mixin_info()
     c = body["case"]
@@ -513,3 +575,73 @@ def replay(ctx, body):
         ms = ctx.model(model_lines(case, info))
         run_case(ctx, case, 0, info, ms)
     return ctx.finish()
+
+
+def run_generic_orders(ctx, n):
+    """order of first use of generic specialisations: a lazily compiled (or postponed) holder of Page[m1.Item]
+    and one of Page[m2.Item] — two classes with ONE name in different modules — used in every order of first
+    calls; every outcome must be the one of the eagerly compiled twin"""
+    import dataclasses
+    import itertools
+    import sys
+    import types
+    import typing
+
+    from mashumaro import DataClassDictMixin
+    from mashumaro.config import BaseConfig
+
+    T = typing.TypeVar("T")
+    calls = ["to1", "to2", "from1", "from2"]
+    orders = list(itertools.permutations(calls))
+    ctx.rng.shuffle(orders)
+    made = []
+
+    def world(uid, lazy):
+        mods = []
+        for k in (1, 2):
+            m = types.ModuleType(f"c14gen_{uid}_{k}")
+            sys.modules[m.__name__] = m
+            made.append(m.__name__)
+            mods.append(m)
+        cfg = type("Config", (BaseConfig,), {"lazy_compilation": lazy})
+
+        def dc(mod, name, ann, ns=None, bases=(DataClassDictMixin,)):
+            d = {"__annotations__": ann, "__module__": mod.__name__, "Config": cfg, **(ns or {})}
+            c = type(name, bases, d)
+            setattr(mod, name, c)
+            return dataclasses.dataclass(c)
+
+        I1 = dc(mods[0], "Item", {"name": str})
+        I2 = dc(mods[1], "Item", {"name": str, "price": int})
+        Page = types.new_class("Page", (DataClassDictMixin, typing.Generic[T]), {}, lambda ns: ns.update({"__annotations__": {"items": typing.List[T]}, "__module__": mods[0].__name__, "Config": cfg}))
+        setattr(mods[0], "Page", Page)
+        Page = dataclasses.dataclass(Page)
+        R1 = dc(mods[0], "Response", {"page": Page[I1]})
+        R2 = dc(mods[1], "Response", {"page": Page[I2]})
+        v1, v2 = R1(Page([I1("a")])), R2(Page([I2("b", 7)]))
+        d1, d2 = {"page": {"items": [{"name": "a"}]}}, {"page": {"items": [{"name": "b", "price": 7}]}}
+        return {"to1": lambda: v1.to_dict(), "to2": lambda: v2.to_dict(), "from1": lambda: canon(R1.from_dict(d1)), "from2": lambda: canon(R2.from_dict(d2))}
+
+    def run(fns, order):
+        out = {}
+        for c in order:
+            try:
+                out[c] = ["ok", fns[c]()]
+            except RecursionError:
+                out[c] = ["diverged"]
+            except Exception as e:  # noqa
+                out[c] = ["error", f"{type(e).__name__}: {e}"[:160]]
+        return out
+
+    try:
+        for i, order in enumerate(orders[:n]):
+            case = {"generic_order": list(order)}
+            ctx.count(case, True, kind="generic-specialisation order")
+            want = run(world(f"{ctx.seed}_{i}e", False), calls)
+            got = run(world(f"{ctx.seed}_{i}l", True), order)
+            if got != want:
+                diff = {k: got[k] for k in calls if got[k] != want[k]}
+                ctx.violation(case, {"lazy": diff}, {"eager_twin": {k: want[k] for k in diff}}, "results depend on the order in which generic specialisations were first used", lambda f: False)
+    finally:
+        for mname in made:
+            sys.modules.pop(mname, None)
